@@ -215,7 +215,7 @@ class Codec:
             msg_length += int(value)
 
         # message looks incomplete
-        if msg_length > len(rawmsg):
+        if msg_length > len(rawmsg) - valid_idx:
             assert silent, "incomplete message"
             return (None, parsed_length, None)
 
